@@ -376,3 +376,6 @@ func tail(s string, n int) string {
 	}
 	return s
 }
+
+// Tail returns the last n bytes of s.
+func Tail(s string, n int) string { return tail(s, n) }
